@@ -9,6 +9,8 @@ pub(crate) mod utils;
 pub use dense::DenseLuaGenerator;
 pub use readable::ReadableLuaGenerator;
 pub use token_based::TokenBasedLuaGenerator;
+#[cfg(feature = "verif")]
+pub(crate) use token_based::verif_is_single_line_comment;
 
 use crate::nodes;
 
